@@ -33,7 +33,8 @@ Mut(s) ==
   \cup (IF Len(s.gs) < 2 THEN {[m |-> "clone", args |-> <<>>]} ELSE {})
 Obs == {[m |-> "node_size", args |-> <<>>], [m |-> "edge_size", args |-> <<>>], [m |-> "filter", args |-> <<<<>>>>],
         [m |-> "filter", args |-> <<<<1>>>>], [m |-> "filter", args |-> <<<<0, 1, 1>>>>],
-        [m |-> "diff", args |-> <<1>>], [m |-> "diff", args |-> <<0>>], [m |-> "eq", args |-> <<1>>]}
+        [m |-> "diff", args |-> <<1>>], [m |-> "diff", args |-> <<0>>], [m |-> "eq", args |-> <<1>>],
+        [m |-> "to_string", args |-> <<>>], [m |-> "diff_text", args |-> <<1>>], [m |-> "diff_text", args |-> <<0>>]}
        \cup {[m |-> "get_state", args |-> <<i>>] : i \in Ids}
        \cup {[m |-> "get_weight", args |-> <<o, d>>] : o \in Ids, d \in Ids}
 
